@@ -1127,7 +1127,7 @@ def rule_R11_drain(text, log):
     out = text
     while True:
         mask = code_mask(out)
-        mm = next((m for m in re.finditer(r'\bfor\s+(.+?)\s+in\s+([\w.]+)\.drain\(\.\.\)\s*\{', out) if mask[m.start()]), None)
+        mm = next((m for m in re.finditer(r'\bfor\s+(.+?)\s+in\s+((?:\(&mut\s+[\w.]+\)|\w+(?:\(\))?)(?:\s*\.\s*\w+(?:\(\))?)*?)\s*\.\s*drain\(\.\.\)\s*\{', out) if mask[m.start()]), None)
         if not mm:
             return out
         ob = mm.end() - 1
@@ -1559,6 +1559,7 @@ class Unit(object):
         self.chunks = []
         self.rule_log = []          # (rule, before, after, file, fn)
         self.skipped_blocks = []
+        self.lost_ghost_updates = []
         self.fns = {}               # fn_id -> dict(file, path, line, props, trusted, ...)
         self.clauses = []           # dict(fn, section, label, props, text)
         self.items = []             # extracted non-fn items
@@ -2949,6 +2950,14 @@ def emit_fn_text(unit, rel, path, fn_id, text, line0, end_line, dlines, tmpl_whe
                 if new_names:
                     lost_names |= new_names
                 changed = True
+    # a proof aid that UPDATES ghost state (`proof { queues.permits = queues.permits + 1; }`) and has lost its place: the clauses
+    # that speak about that ghost state are no longer tied to the code (they would hold trivially), so the function is undecided
+    for sec in sections:
+        if sec[0] in ('loop', 'before', 'after', 'atstart', 'atend') and not any(ins[2] is sec[2] for ins in inserts):
+            for l_ in sec[2]:
+                if re.search(r'(?:\{|;)\s*(?!let\b|assert\b|reveal\b|if\b|lemma_)[A-Za-z_][\w.]*\s*=\s*[^=]', l_) and 'proof' in l_:
+                    unit.lost_ghost_updates.append({'fn': fn_id, 'aid': norm_ws(l_)[:120]})
+                    break
     for sec in sections:
         if sec[0] == 'loopiter':
             # Verus syntax for naming the ghost iterator of a for loop: `for x in it: expr`
